@@ -15,6 +15,7 @@ import (
 	"math/rand/v2"
 	"os"
 	"reflect"
+	"regexp"
 	"runtime"
 	"sort"
 	"strconv"
@@ -429,6 +430,8 @@ type c8Run struct {
 	// (modulo member order); otherwise the variant documents no longer vary only what they claim to vary.
 	selfBad   int
 	selfFirst string
+	// API-built payloads: a non-nil empty slice is the same value as a nil one (JSON `"k":[]` ≡ member omitted)
+	emptyIsNil bool
 }
 
 func (h *c8Run) stat(k string) { h.stats[k]++ }
@@ -683,9 +686,15 @@ func (h *c8Run) runValue(r *c8Root, x any) {
 		h.viol("C08/json/marshal-invalid-json/"+r.name, "err="+c8Short(perr.Error())+" doc="+c8HexCap(je.b))
 		return
 	}
+	if h.emptyIsNil {
+		// API-built payloads may hold NON-nil empty slices (e.g. FromRaw(nonempty) then FromRaw(empty)); jsonpb writes them as `[]`,
+		// which reads back as empty: the canonical form nil ≡ empty slice, carried over to the document (`"k":[]` ≡ member omitted)
+		jSorted = c8EmptyArrMember.ReplaceAllString(jSorted, "")
+	}
 	h.out.Linef("obs js %s", jSorted)
 	if own, _, _, _ := c8WriteJSON(x, "canon", nil); true {
-		if _, ownSorted, err := c8DocJ([]byte(own)); err != nil || ownSorted != jSorted {
+		if _, ownSorted, err := c8DocJ([]byte(own)); err != nil || (ownSorted != jSorted && !h.emptyIsNil) ||
+			(h.emptyIsNil && c8EmptyArrMember.ReplaceAllString(ownSorted, "") != jSorted) {
 			if h.selfBad == 0 {
 				h.selfFirst = "own=" + own + " real=" + string(je.b)
 			}
@@ -1119,6 +1128,8 @@ func (h *c8Run) deprecated(dataRoot, reqRoot string, x any) {
 
 // ---- generated cases ----------------------------------------------------------------------------------------
 
+var c8EmptyArrMember = regexp.MustCompile(`[0-9a-f]*:\[\]`)
+
 var c8Signals = []string{"logs", "metrics", "traces", "profiles"}
 
 func (h *c8Run) pickRoot(rnd *rand.Rand, c int, allowWire bool) *c8Root {
@@ -1234,10 +1245,12 @@ func (h *c8Run) apiBlock(replay, per int) {
 				x = &pb
 			}
 			h.begin(c, "value", r.name)
+			h.emptyIsNil = true
 			h.stat("api.program")
 			h.stats["api.calls"] += a.calls
 			h.stats["api.panics"] += a.panics
 			h.runValue(r, x)
+			h.emptyIsNil = false
 			h.end(a.calls > 3)
 		}
 	}
